@@ -187,6 +187,11 @@ Proof.
   rewrite <- (IH full _ (off + S ge')). reflexivity.
 Qed.
 
+(* spans lie inside the text [off, n), are non-empty, increasing and disjoint *)
+Inductive wf_spans : nat -> nat -> list (nat * nat) -> Prop :=
+| WfNil : forall off n, wf_spans off n []
+| WfCons : forall off n a b sp, off <= a -> a < b -> b <= n -> wf_spans b n sp -> wf_spans off n ((a, b) :: sp).
+
 Lemma ms_seq_inv : forall a b s p c s2 p2 c2, ms (Seq a b) s p c s2 p2 c2 ->
   exists s1 p1 c1, ms a s p c s1 p1 c1 /\ ms b s1 p1 c1 s2 p2 c2.
 Proof. intros a b s p c s2 p2 c2 H; inversion H; subst; eauto 6. Qed.
@@ -338,6 +343,45 @@ Section Loop.
   Theorem scrub1_render : forall t,
     scrub1 full t = render t 0 (spans (S (length t)) full t 0).
   Proof. intros t; unfold scrub1; apply scrub_loop_render. Qed.
+  (* ---- the replaced spans are well formed *)
+  Lemma spans_wf : forall fuel s off, wf_spans off (off + length s) (spans fuel full s off).
+  Proof.
+    induction fuel as [|f IH]; intros s off; cbn [spans]; [constructor|].
+    destruct (search full s 0) as [[[st en] cs]|] eqn:Es; [|constructor].
+    destruct (cap_lookup 1 cs) as [[gs ge]|] eqn:Ec; [|constructor].
+    destruct ge as [|ge']; [constructor|].
+    apply search_sound in Es. destruct Es as (k & Hk & Hst & Hm). simpl in Hst; subst st.
+    destruct (match_here_shape _ _ _ _ Hm) as (gs' & ge2 & w & Hcap & Hg1 & Hg2 & Hge & Hne & Hmw & pre & post & Es & Hpre).
+    rewrite Hcap in Ec. inversion Ec; subst gs' ge2.
+    assert (Hlen : length (skipn k s) = length pre + length w + length post).
+    { rewrite Es, !app_length; lia. }
+    rewrite skipn_length in Hlen.
+    assert (Hw : 1 <= length w) by (destruct w; [contradiction|simpl; lia]).
+    constructor; try lia.
+    replace (off + length s) with ((off + S ge') + length (skipn (S ge') s)).
+    - apply IH.
+    - rewrite skipn_length; lia.
+  Qed.
+
+  (* ---- the fuel of scrub_loop is never exhausted: every round drops at least one byte of the text,
+     so any fuel above the length of the text gives the same result (the Go loop has no bound) *)
+  Lemma scrub_loop_fuel : forall f1 f2 s,
+    length s < f1 -> length s < f2 -> scrub_loop f1 full s = scrub_loop f2 full s.
+  Proof.
+    induction f1 as [|f1 IH]; intros f2 s H1 H2; [lia|].
+    destruct f2 as [|f2]; [lia|]. cbn [scrub_loop].
+    destruct (search full s 0) as [[[st en] cs]|] eqn:Es; auto.
+    destruct (cap_lookup 1 cs) as [[gs ge]|] eqn:Ec; auto.
+    destruct ge as [|ge']; auto.
+    apply search_sound in Es. destruct Es as (k & Hk & Hst & Hm). simpl in Hst; subst st.
+    destruct (match_here_shape _ _ _ _ Hm) as (gs' & ge2 & w & Hcap & Hg1 & Hg2 & Hge & Hne & Hmw & pre & post & Es & Hpre).
+    rewrite Hcap in Ec. inversion Ec; subst gs' ge2.
+    assert (Hlen : length (skipn k s) = length pre + length w + length post).
+    { rewrite Es, !app_length; lia. }
+    rewrite skipn_length in Hlen.
+    rewrite (IH f2 (skipn (S ge') s)); auto; rewrite skipn_length; lia.
+  Qed.
+
   (* ---- the final newline of a line survives *)
   Hypothesis HnlA : sym_free NL A = true.
 
